@@ -23,7 +23,7 @@ RULE = ("PolarMeasurements built directly: 1-12 radial x 1-12 azimuthal bins, ra
 CLAUSES = ["radial-limits", "azimuthal-limits", "both-limits", "no-limits-total", "partition-radial", "partition-azimuthal",
            "detector-regions", "result-type", "history"]
 QUICK = dict(n=700, time=40)
-THOROUGH = dict(n=40000, time=240, shards=16)
+THOROUGH = dict(n=179100, time=480, shards=16)
 ASSUMPTIONS = ["only limits aligned with bin edges are judged (the property's quantifier); limits beyond the binned range are not generated"]
 
 
